@@ -57,7 +57,7 @@ func TestC06(t *testing.T) {
 		e.db.Close()
 		os.RemoveAll(dir)
 	}()
-	n := rec.N(400, 40000)
+	n := rec.N(1200, 40000)
 	for c := 0; c < n; c++ {
 		if rec.Mine(c) {
 			runSeq(rec, e, c)
